@@ -298,3 +298,114 @@ def record_scope(tier):
         fields = [(chr(97 + i), kinds[k]()) for i, k in enumerate(cb)]
         out.append({"sid": "rec_" + "_".join(cb), "nodes": flatten(rec(nm("ns.Rec"), fields))["nodes"]})
     return out
+
+
+def schema_trees(tier, rng=None):
+    """target schemas for C07 / C08 / C09 as trees (definitions inline at first occurrence, later uses as refs):
+    named types over the namespaces {"", a, a.b, c}, nested through records / arrays / maps / unions, shared and
+    recursive types, the same short name in two namespaces, logical types."""
+    out = []
+
+    def add(name, tree):
+        out.append((name, tree))
+
+    add("prim_long", prim("long"))
+    add("prim_lt", prim("int", "date"))
+    add("dec_bytes", prim("bytes", "decimal", prec=9, scale=2))
+    add("dec_bytes_s0", prim("bytes", "decimal", prec=4, scale=0))
+    add("arr_of_map", arr(mp(prim("string"))))
+    add("union_prims", un(prim("null"), prim("string"), prim("long")))
+    add("enum_ns", enum("a.b.Color", ["RED", "GREEN"]))
+    add("fixed_nons", fixed("Hash", 16))
+    add("fixed_dec", fixed("a.Money", 8, "decimal", prec=18, scale=4))
+    add("rec_simple", rec("a.R", [("x", prim("long")), ("y", prim("string"))]))
+    add("rec_nons", rec("R", [("x", prim("long"))]))
+    add("rec_nested_same_ns", rec("a.Outer", [("i", rec("a.Inner", [("v", prim("int"))])), ("j", ref("a.Inner"))]))
+    add("rec_nested_other_ns", rec("a.Outer", [("i", rec("c.Inner", [("v", prim("int"))])), ("j", ref("c.Inner")), ("k", arr(ref("c.Inner")))]))
+    add("rec_nested_null_ns_child", rec("a.Outer", [("i", rec("Inner", [("e", enum("E", ["A"])), ("e2", ref("E"))])), ("z", prim("null"))]))
+    add("rec_deeper_ns", rec("a.Outer", [("i", rec("a.b.Inner", [("f", fixed("a.b.F", 4)), ("g", ref("a.b.F"))])), ("h", ref("a.b.F"))]))
+    add("same_short_two_ns", rec("top.T", [("p", enum("n1.Kind", ["X", "Y"])), ("q", enum("n2.Kind", ["Y", "X"])), ("r", ref("n1.Kind")), ("s", ref("n2.Kind"))]))
+    add("recursive_list", rec("a.Node", [("v", prim("long")), ("next", un(prim("null"), ref("a.Node")))]))
+    add("recursive_tree", rec("Tree", [("kids", arr(ref("Tree"))), ("m", mp(ref("Tree")))]))
+    add("mutual_recursion", rec("a.A", [("b", un(prim("null"), rec("a.B", [("a", arr(ref("a.A")))])))]))
+    add("union_of_named", un(prim("null"), rec("a.R1", [("f", prim("int"))]), enum("a.E1", ["S"]), fixed("c.F1", 2), ref("a.R1")) if False else
+        un(prim("null"), rec("a.R1", [("f", prim("int"))]), enum("a.E1", ["S"]), fixed("c.F1", 2)))
+    add("map_of_rec_shared", rec("a.Holder", [("m", mp(rec("a.Item", [("id", prim("long"))]))), ("l", arr(ref("a.Item"))), ("o", un(prim("null"), ref("a.Item")))]))
+    add("empty_record", rec("a.Empty", []))
+    add("rec_with_empty_nested", rec("a.W", [("e", rec("a.E0", [])), ("after", prim("int")), ("u", un()), ("last", enum("a.NoSyms", []))]) if False else
+        rec("a.W", [("e", rec("a.E0", [])), ("after", prim("int")), ("last", prim("string"))]))
+    add("logical_all", rec("a.L", [("d", prim("int", "date")), ("tm", prim("int", "time-millis")), ("tu", prim("long", "time-micros")),
+                                   ("sm", prim("long", "timestamp-millis")), ("su", prim("long", "timestamp-micros")), ("u", prim("string", "uuid")),
+                                   ("du", fixed("a.Du", 12, "duration")), ("bd", prim("bytes", "big-decimal")), ("x", prim("string", "custom-lt")),
+                                   ("dm", fixed("a.D8", 8, "decimal", prec=10, scale=0))]))
+    add("three_levels", rec("a.L1", [("l2", rec("L2", [("l3", rec("a.L3", [("back", un(prim("null"), ref("a.L1")))])), ("again", ref("a.L3"))]))]) if False else
+        rec("a.L1", [("l2", rec("a.x.L2", [("l3", rec("a.L3", [("back", un(prim("null"), ref("a.L1")))])), ("again", ref("a.L3"))]))]))
+    if rng is not None:
+        from . import pyavro
+        for i in range(12 if tier == "quick" else 120):
+            out.append((f"random{i}", random_tree(rng, depth=rng.choice([2, 3, 4]))))
+    return out
+
+
+def random_tree(rng, depth=3):
+    """random schema tree with named types over a few namespaces, sharing by reference, recursion through unions/arrays"""
+    nss = ["", "a", "a.b", "c"]
+    defined = []          # fullnames defined so far (DFS order) - may be referenced later
+    counter = [0]
+    open_records = []     # records being defined: may be referenced from inside only through union / array / map
+
+    def fresh(prefix, encl_ns):
+        counter[0] += 1
+        # a null-namespace type may only be defined (and later referenced) where the enclosing namespace is null too
+        ns = rng.choice([n for n in nss if not (n == "" and encl_ns != "")] or ["a"])
+        return (ns + "." if ns else "") + f"{prefix}{counter[0]}"
+
+    def usable(n, encl_ns):
+        return not (split(n)[0] == "" and encl_ns != "")
+
+    def split(full):
+        return full.rsplit(".", 1) if "." in full else ("", full)
+
+    def gen(d, encl_ns, guarded):
+        c = rng.random()
+        cands = [n for n in defined if usable(n, encl_ns) and (guarded or n not in open_records)]
+        if cands and c < 0.2:
+            return ref(rng.choice(cands))
+        if d <= 0 or c < 0.4:
+            k = rng.randrange(8)
+            if k == 0:
+                n = fresh("E", encl_ns)
+                defined.append(n)
+                return enum(n, ["A", "B", "C"][: rng.randrange(1, 4)])
+            if k == 1:
+                n = fresh("F", encl_ns)
+                defined.append(n)
+                return fixed(n, rng.choice([1, 4, 16]))
+            if k == 2:
+                return prim("bytes", "decimal", prec=rng.randrange(1, 20), scale=rng.choice([0, 0, 2]))
+            return prim(rng.choice(["null", "boolean", "int", "long", "float", "double", "bytes", "string"]),
+                        rng.choice(["none", "none", "none", "some-lt"]))
+        if c < 0.55:
+            return arr(gen(d - 1, encl_ns, True))
+        if c < 0.65:
+            return mp(gen(d - 1, encl_ns, True))
+        if c < 0.8:
+            bs, kinds = [], set()
+            for _ in range(rng.randrange(1, 4)):
+                mark = len(defined)
+                b = gen(d - 1, encl_ns, True)
+                kind = b.get("ref") or b.get("name") or b["k"]
+                if b.get("k") == "union" or kind in kinds:
+                    del defined[mark:]          # the names defined inside the discarded branch do not exist
+                    continue
+                kinds.add(kind)
+                bs.append(b)
+            return un(*bs) if bs else prim("null")
+        n = fresh("R", encl_ns)
+        defined.append(n)
+        open_records.append(n)
+        fields = [(f"f{i}", gen(d - 1, split(n)[0], False)) for i in range(rng.randrange(0, 4))]
+        open_records.remove(n)
+        return rec(n, fields)
+
+    return gen(depth, "", False)
